@@ -68,6 +68,8 @@ class Exec:
         self.fresh = 0
         self.max_paths = max_paths
         self.npaths = 0
+        self.call_records = {}
+        self.path_states = []             # (pc, final state) of every completed path of the outermost run
         self.summary_facts = []           # constraints introduced by call summaries (proved contracts)
         self.branch_log = []              # (function, bb, discriminant Val) for constant-time queries
         self.index_log = []               # (function, bb, index term)
@@ -406,6 +408,9 @@ class Exec:
                 if fl is None:
                     raise Refuse(f'enum variant {tree[1][2]} has no modelled payload')
                 return fl[int(tree[2])]
+        op = self._opaque_projection(st, tree)
+        if op is not None:
+            return op
         if tree[0] == 'index':
             # element of an array value held directly (e.g. a by-value [u8; 3] argument or to_le_bytes() result)
             try:
@@ -424,6 +429,89 @@ class Exec:
                 return out
         key, ty = self.place_key(st, tree)
         return self.read_key(st, key, ty)
+
+    def _opaque_projection(self, st, tree):
+        """field / downcast chains rooted in a local that holds an Opaque value (e.g. the result of an uninterpreted call)
+        are named after that value: call:sig_decode#1@Ok.0.1"""
+        path = []
+        t = tree
+        ty = None
+        while t[0] in ('field', 'downcast'):
+            if t[0] == 'field':
+                path.append('.' + t[2])
+                if ty is None:
+                    ty = t[3]
+            else:
+                path.append('@' + t[2])
+            t = t[1]
+        if not path or t[0] != 'local':
+            return None
+        base = st.get(t[1])
+        if not isinstance(base, Opaque) or isinstance(base, Ref):
+            return None
+        if base.meta and isinstance(base.meta, dict) and len(path) == 1 and path[0][0] == '.':
+            # struct aggregate built in this body: field by position is unknown, by name not available in MIR -> fall through
+            pass
+        name = base.t + ''.join(reversed(path))
+        if name in self.inputs:
+            return self.inputs[name]
+        if ty and (ty in INT or ty == 'bool'):
+            v = self.sym(name, ty)
+        elif ty and ty.startswith('&'):
+            v = Ref('*' + name, ty)
+        else:
+            v = Opaque(name, ty or '?')
+        self.inputs[name] = v
+        return v
+
+    def show(self, v, st=None, depth=0):
+        """canonical provenance string of a value (used by the dataflow-skeleton obligations)"""
+        if v is None:
+            return 'None'
+        if isinstance(v, Ref):
+            key = v.t
+            if st is not None and isinstance(key, str) and key in st and depth < 6:
+                return '&' + self.show(st[key], st, depth + 1)
+            if st is not None and isinstance(key, str) and depth < 6:
+                mm = re.match(r'^(_\d+)((?:\[\d+\]|\.\d+)+)$', key)
+                if mm and mm.group(1) in st:
+                    return '&' + self.show(st[mm.group(1)], st, depth + 1) + mm.group(2)
+            return '&' + str(key)
+        if isinstance(v, Enum):
+            d = z3.simplify(v.t)
+            if z3.is_bv_value(d) or z3.is_int_value(d):
+                di = d.as_long()
+                pl = v.meta.get(di)
+                return f'variant{di}(' + (', '.join(self.show(x, st, depth + 1) for x in pl) if pl else '') + ')'
+            return 'enum(' + d.sexpr() + ')'
+        if isinstance(v, Opaque):
+            if v.meta and isinstance(v.meta, dict):
+                return str(v.t) + '{' + ', '.join(f'{k}: {self.show(x, st, depth + 1)}' for k, x in v.meta.items()) + '}'
+            return str(v.t)
+        if isinstance(v.t, tuple):
+            return '[' + ', '.join(self.show(x, st, depth + 1) for x in v.t) + ']'
+        c = self.concrete(v)
+        if c is not None:
+            return str(c)
+        return z3.simplify(v.t).sexpr().replace('\n', ' ')
+
+    def init_params(self, f, named=None):
+        """initial state for a whole-body run: every parameter named after its debug name"""
+        st = {}
+        for l, t in f.params:
+            nm = f.debug.get(l, l)
+            if named and nm in named:
+                st[l] = named[nm]
+            elif t in INT or t == 'bool':
+                key = 'arg:' + nm
+                if key not in self.inputs:
+                    self.inputs[key] = self.sym(key, t)
+                st[l] = self.inputs[key]
+            elif t.startswith('&'):
+                st[l] = Ref(nm, t)
+            else:
+                st[l] = Opaque(nm, t)
+        return st
 
     def read_key(self, st, key, ty):
         if isinstance(key, tuple):      # ('@idx', basekey, indexVal)
@@ -467,6 +555,28 @@ class Exec:
 
     def operand(self, st, txt):
         txt = txt.strip()
+        pm = re.match(r'^const (.+?)(?:::<.*>)?::promoted\[(\d+)\]$', txt)
+        if pm:
+            suffix = pm.group(1).split('::')[-1] + f'::promoted[{pm.group(2)}]'
+            cands = [n for n in self.funcs if n == suffix or n.endswith('::' + suffix)]
+            own = [n for n in cands if n.startswith(self.curf.name.split('::{')[0])] or cands
+            if len(own) != 1:
+                raise Refuse(f'promoted constant {txt}: {cands}')
+            pf = self.funcs[own[0]]
+            pst = {}
+            saved = self.curf
+            self.curf = pf
+            for line in pf.blocks.get('bb0', []):
+                mm = re.match(r'^(_\d+) = (.*)$', line)
+                if mm:
+                    pst[mm.group(1)] = self.rvalue(pst, mm.group(2), pf.locals.get(mm.group(1)))
+            self.curf = saved
+            r = pst.get('_0')
+            if isinstance(r, Ref) and r.t in pst:
+                key = f'promoted:{own[0]}'
+                st[key] = pst[r.t]
+                return Ref(key, r.ty)
+            return r
         if txt.startswith('const '):
             return self.mkconst(txt, self.hint)
         txt = re.sub(r'^(no_retag )?(copy|move) ', '', txt)
@@ -531,6 +641,11 @@ class Exec:
             v = self.read_tree(st, self.parse_place(m.group(2)))
             if isinstance(v, Enum):
                 return Val(v.t, 'isize')
+            if isinstance(v, Opaque):
+                key = f'disc({v.t})'
+                if key not in self.inputs:
+                    self.inputs[key] = self.sym(key, 'isize')
+                return self.inputs[key]
             raise Refuse('discriminant of non-enum ' + repr(v))
         m = re.match(r'^(.*) as (\w+) \(IntToInt\)$', rv)
         if m:
@@ -551,16 +666,56 @@ class Exec:
             return Val(tuple(self.operand(st, p) for p in parts), 'tuple')
         if rv == '()':
             return Val((), 'tuple')
-        m = re.match(r'^&(?:raw )?(?:mut |const )?(.*)$', rv)
+        m = re.match(r'^&(?:raw )?(mut |const )?(.*)$', rv)
         if m:
-            key, ty = self.place_key(st, self.parse_place(m.group(1)))
-            return Ref(key if isinstance(key, str) else self.key_str(key), '&' + (ty or ''))
+            key, ty = self.place_key(st, self.parse_place(m.group(2)))
+            return Ref(key if isinstance(key, str) else self.key_str(key), ('&mut ' if m.group(1) == 'mut ' else '&') + (ty or ''))
+        m = re.match(r'^(?:PtrMetadata|Len)\((?:copy |move )?(.*)\)$', rv)
+        if m:
+            v = self.read_tree(st, self.parse_place(m.group(1).lstrip('*'))) if not m.group(1).startswith('(*') else self.read_tree(st, self.parse_place(m.group(1)[2:-1]))
+            nm = v.t if isinstance(v, (Ref, Opaque)) else str(v.t)
+            key = f'len({nm})'
+            if key not in self.inputs:
+                self.inputs[key] = self.sym(key, 'usize')
+            return self.inputs[key]
+        m = re.match(r'^\[(.*); (.*)\]$', rv)
+        if m and not rv.startswith('[copy') and not rv.startswith('[move'):
+            self.hint = None
+            try:
+                e = self.operand(st, m.group(1))
+                return Opaque(f'repeat({self.show(e)})', dst_ty or 'array')
+            except Refuse:
+                return Opaque('repeat(?)', dst_ty or 'array')
+        m = re.match(r'^\{closure@([^}]*)\}(?: \{ (.*) \})?$', rv, re.S)
+        if m:
+            caps = {}
+            for part in split_top(m.group(2) or ''):
+                if ':' in part:
+                    nm, op = part.split(':', 1)
+                    try:
+                        caps[nm.strip()] = self.operand(st, op)
+                    except Refuse:
+                        caps[nm.strip()] = Opaque('?' + op.strip(), '?')
+            o = Opaque('closure@' + m.group(1), 'closure')
+            o.meta = caps
+            return o
         if rv.startswith('[') and rv.endswith(']'):
             parts = split_top(rv[1:-1])
             return Val(tuple(self.operand(st, p) for p in parts), 'array')
-        m = re.match(r'^[\w:<>\', ]+ \{ (.*) \}$', rv, re.S)
+        m = re.match(r'^([\w:]+)(?:::<.*?>)? \{ (.*) \}$', rv, re.S)
         if m:
-            return Opaque(f'aggregate:{rv[:40]}', dst_ty or '?')
+            fields = {}
+            for part in split_top(m.group(2)):
+                if ':' in part:
+                    nm, op = part.split(':', 1)
+                    self.hint = None
+                    try:
+                        fields[nm.strip()] = self.operand(st, op)
+                    except Refuse:
+                        fields[nm.strip()] = Opaque('?' + op.strip(), '?')
+            o = Opaque('struct:' + m.group(1), 'struct:' + m.group(1))
+            o.meta = fields
+            return o
         return self.operand(st, rv)
 
     # ------------------------------------------------------------------ execution
@@ -603,6 +758,14 @@ class Exec:
             self.npaths += 0
             while True:
                 self.curbb = bb
+                trail = st.get('@trail', ())
+                if self.cut_loops and bb in trail and not (bb in stop):
+                    d = dict(st); d['@stop'] = 'loop:' + bb
+                    results.append((pc, d))
+                    self.path_states.append((pc, d))
+                    return
+                if self.cut_loops:
+                    st['@trail'] = trail + (bb,)
                 if bb in stop and steps > 0:
                     d = dict(st); d['@stop'] = bb
                     results.append((pc, d))
@@ -617,6 +780,7 @@ class Exec:
                         continue
                     if line == 'return':
                         results.append((pc, st.get('_0')))
+                        self.path_states.append((pc, st))
                         return
                     if line == 'unreachable':
                         return
@@ -668,9 +832,9 @@ class Exec:
                         nxt = m.group(4)
                         break
                     # call with return
-                    m = re.match(r'^(.+?) = (.+?)\((.*)\) -> \[return: (bb\d+), unwind[^\]]*\]$', line, re.S)
-                    if m and not re.match(r'^(copy|move|const|\w+\()', m.group(2).strip()) and self._is_call(m.group(2)):
-                        dst, callee, argtxt, ret = m.groups()
+                    m = self._split_call(line, r' -> \[return: (bb\d+), unwind[^\]]*\]$')
+                    if m and not re.match(r'^(copy|move|const|\w+\()', m[1].strip()) and self._is_call(m[1]):
+                        dst, callee, argtxt, ret = m
                         self.hint = None
                         argv = []
                         for a in split_top(argtxt):
@@ -687,9 +851,9 @@ class Exec:
                         nxt = ret
                         break
                     # diverging call
-                    m = re.match(r'^(.+?) = (.+?)\((.*)\) -> (unwind.*|bb\d+)$', line, re.S)
-                    if m and self._is_call(m.group(2)):
-                        callee = m.group(2).strip()
+                    m = self._split_call(line, r' -> (unwind.*|bb\d+)$')
+                    if m and self._is_call(m[1]):
+                        callee = m[1].strip()
                         msg = callee
                         # message of the panic = last string constant passed to Arguments::from_str on this path
                         if '@lastmsg' in st:
@@ -712,6 +876,37 @@ class Exec:
         self.curf, self.alias, self.scope, self.curbb = saved
         self._cur_alias_scope = (self.alias, self.scope)
         return results, obligations
+
+    @staticmethod
+    def _split_call(line, tail_rx):
+        """`dst = callee(args) -> tail`  ->  (dst, callee, args, tail-group) ; the argument list is the last balanced (...) group"""
+        mt = re.search(tail_rx, line, re.S)
+        if not mt or ' = ' not in line[:mt.start()]:
+            return None
+        head = line[:mt.start()]
+        if not head.endswith(')'):
+            return None
+        d = 0
+        j = len(head) - 1
+        instr = False
+        while j >= 0:
+            ch = head[j]
+            if ch == '"':
+                instr = not instr
+            elif not instr:
+                if ch == ')':
+                    d += 1
+                elif ch == '(':
+                    d -= 1
+                    if d == 0:
+                        break
+            j -= 1
+        if j <= 0:
+            return None
+        eq = head.index(' = ')
+        if eq > j:
+            return None
+        return head[:eq].strip(), head[eq + 3:j], head[j + 1:-1], mt.group(1)
 
     def _place_type(self, dst):
         dst = dst.strip()
@@ -774,12 +969,22 @@ class Exec:
                 return out
         # opaque call: fresh result
         self.fresh += 1
-        name = f'call:{base}#{self.fresh}'
+        ms = re.match(r'^<.* as ([\w:]+)>::(\w+)$', base)
+        short = f'{ms.group(1).split("::")[-1]}::{ms.group(2)}' if ms else base
+        name = f'call:{short}#{self.fresh}'
         if dty and (dty in INT or dty == 'bool'):
             r = self.sym(name, dty)
         else:
             r = Opaque(name, dty or '?')
         self.calls.append((base, argv, r, self.curf.name, self.curbb))
+        rec = {'id': self.fresh, 'callee': base, 'generics': callee[len(base):], 'args': [self.show(a, st) for a in argv], 'argtys': [a.ty if isinstance(a, Ref) else '' for a in argv], 'argv': argv, 'result': name, 'pc': pc, 'fn': self.curf.name, 'bb': self.curbb}
+        self.call_records[self.fresh] = rec
+        st['@calls'] = st.get('@calls', ()) + (self.fresh,)
+        # a callee may write through the &mut references it receives: give their targets a fresh value named after this call
+        for i, a in enumerate(argv):
+            if isinstance(a, Ref) and a.ty.startswith('&mut') and isinstance(a.t, str):
+                tgt_ty = a.ty[4:].strip()
+                st[a.t] = Opaque(f'out{i}:{short}#{self.fresh}', tgt_ty)
         return r
 
     def _scalar_sig(self, fn):
@@ -848,6 +1053,7 @@ class Exec:
         raise Refuse(f'intrinsic {ty}::{fn}')
 
     checked = True
+    cut_loops = False
 
 
 # --------------------------------------------------------------------------- solving
